@@ -34,24 +34,36 @@ package etcd
 //@   modifies ghost.forwarded
 //@   ensures [forwarded] forwarded == old(forwarded)+1
 
+// sh_*: the last write handed to the shim (1 create, 2 update, 3 delete), its arguments and its answer
+//@ ghost sh_op Int
+//@ ghost sh_put Ref
+//@ ghost sh_key Slice
+//@ ghost sh_val Slice
+//@ ghost sh_rev Int
+//@ ghost sh_lease Int
+//@ ghost sh_resp Ref
+//@ ghost sh_err Iface
 //@ func BackendShim.Create(ctx, put) (resp, err)
 //@   assumed
 //@   ensures [response-or-error] err == nil ==> resp != nil
 //@   requires [leader-only] leader_checked
-//@   modifies ghost.shim_writes
+//@   modifies ghost.shim_writes ghost.sh_op ghost.sh_put ghost.sh_resp ghost.sh_err
 //@   ensures [counted] shim_writes == old(shim_writes)+1
+//@   ensures [recorded] sh_op == 1 && sh_put == put && sh_resp == resp && sh_err == err
 //@ func BackendShim.Delete(ctx, key, revision) (resp, err)
 //@   assumed
 //@   ensures [response-or-error] err == nil ==> resp != nil
 //@   requires [leader-only] leader_checked
-//@   modifies ghost.shim_writes
+//@   modifies ghost.shim_writes ghost.sh_op ghost.sh_key ghost.sh_rev ghost.sh_resp ghost.sh_err
 //@   ensures [counted] shim_writes == old(shim_writes)+1
+//@   ensures [recorded] sh_op == 3 && sh_key == key && sh_rev == revision && sh_resp == resp && sh_err == err
 //@ func BackendShim.Update(ctx, rev, key, value, lease) (resp, err)
 //@   assumed
 //@   ensures [response-or-error] err == nil ==> resp != nil
 //@   requires [leader-only] leader_checked
-//@   modifies ghost.shim_writes
+//@   modifies ghost.shim_writes ghost.sh_op ghost.sh_key ghost.sh_val ghost.sh_rev ghost.sh_lease ghost.sh_resp ghost.sh_err
 //@   ensures [counted] shim_writes == old(shim_writes)+1
+//@   ensures [recorded] sh_op == 2 && sh_key == key && sh_val == value && sh_rev == rev && sh_lease == lease && sh_resp == resp && sh_err == err
 //@ func BackendShim.Compact(ctx, revision) (resp, err)
 //@   assumed
 //@   ensures [response-or-error] err == nil ==> resp != nil
@@ -144,7 +156,12 @@ package etcd
 //@   props C16 C18 C20
 //@   nosafety C16 C18
 //@   requires wf_rpc(s) && wire_txn(txn) && !leader_checked
-//@   modifies ghost.leader_checked ghost.shim_writes ghost.forwarded
+//@   modifies ghost.leader_checked ghost.shim_writes ghost.forwarded ghost.sh_op ghost.sh_put ghost.sh_key ghost.sh_val ghost.sh_rev ghost.sh_lease ghost.sh_resp ghost.sh_err
+// which call, with which arguments (first matching shape wins: create, then delete, then update), and
+// the shim's answer is the handler's answer
+//@   ensures@C16 [create-shape-is-a-create-of-its-put] leader_checked && shape_create(txn) ==> sh_op == 1 && sh_put == put_of(txn.Success[0]) && asref(sh_resp, "*etcdserverpb.TxnResponse") == resp && sh_err == err
+//@   ensures@C16 [delete-shapes-are-a-delete-of-that-key-at-that-revision] leader_checked && !shape_create(txn) && (shape_delete_guarded(txn) || shape_delete_unguarded(txn)) ==> sh_op == 3 && asref(sh_resp, "*etcdserverpb.TxnResponse") == resp && sh_err == err && ((shape_delete_unguarded(txn) && sh_rev == 0 && sh_key == del_of(txn.Success[1]).Key) || (shape_delete_guarded(txn) && sh_rev == modrev_of(txn.Compare[0]) && sh_key == del_of(txn.Success[0]).Key))
+//@   ensures@C16 [update-shape-is-an-update-with-its-revision-key-and-value] leader_checked && !shape_create(txn) && !shape_delete_guarded(txn) && !shape_delete_unguarded(txn) && shape_update(txn) ==> sh_op == 2 && sh_rev == modrev_of(txn.Compare[0]) && bytes_eq(sh_key, put_of(txn.Success[0]).Key) && sh_val == put_of(txn.Success[0]).Value && sh_lease == put_of(txn.Success[0]).Lease && asref(sh_resp, "*etcdserverpb.TxnResponse") == resp && sh_err == err
 //@   ensures [follower-writes-nothing] !leader_checked ==> shim_writes == old(shim_writes)
 //@   ensures [at-most-one-call] shim_writes == old(shim_writes) || shim_writes == old(shim_writes)+1
 //@   ensures [unsupported-shape-rejected] leader_checked && !shape_create(txn) && !shape_update(txn) && !shape_delete_guarded(txn) && !shape_delete_unguarded(txn) && !shape_compact(txn) ==> shim_writes == old(shim_writes) && resp == nil && err != nil
